@@ -24,8 +24,8 @@ import (
 func init() { domains["C19"] = runC19 }
 
 type recTarget struct {
-	inner  *memory.Store
-	events []string
+	inner   *memory.Store
+	events  []string
 	cfgNone bool
 }
 
